@@ -21,16 +21,27 @@ def floatify(j):
     return [floatify(x) for x in j]
 
 
+def unfloat(j):
+    """The integer spelling of an expression that may contain ["cf", n] nodes (what TLC is given: same values)."""
+    if not isinstance(j, list):
+        return j
+    if len(j) == 2 and j[0] == "cf":
+        return ["c", j[1]]
+    return [unfloat(x) for x in j]
+
+
 def roundtrip(e_json, backticks=False, floats=False):
     from dagrt.expression import parse
-    e = exprs.from_json(floatify(e_json) if floats else e_json)
+    built = floatify(e_json) if floats else e_json
+    e = exprs.from_json(built)
+    e_json = unfloat(e_json)
     s1 = str(e)
     text = s1
     if backticks:
         # backtick-quoted names denote the variable between the backticks
         text = re.sub(r"(<\w+>\w+|\b[xy]\b)", lambda m: "`%s`" % m.group(1), s1)
     case = {"kind": "roundtrip", "e": e_json, "s1": s1, "s2": "", "p": ["none"], "err": "",
-            "vars": exprgen.data_vars(e_json), "text": text, "backticks": backticks, "floats": floats}
+            "vars": exprgen.data_vars(e_json), "text": text, "backticks": backticks, "floats": floats, "built": built}
     try:
         p = parse(text)
         case["p"] = exprs.to_json(p)
@@ -112,7 +123,15 @@ def run(chk):
                     ["pow", e, ["c", 2]], ["pow", ["c", 2], e], ["quot", e, Yv], ["quot", Yv, e], ["if", lt, e, Yv],
                     ["if", lt, Yv, e], ["cmp", "<", e, Yv], ["cmp", ">=", Yv, e], ["min", [e, Yv]], ["prod", [["c", -1], e]]]
         es.extend(ctxs)
-    cases = []
+    # siblings that differ only in the spelling of a constant (2 vs 2.0) inside ONE expression
+    small = [e for e in es[:n_exh] if e[0] not in ("c", "v", "cmp", "and", "or", "not") and '"c"' in json.dumps(e)
+             and len(json.dumps(e)) < 90]
+    sib = []
+    for e in small[::1 if not chk.quick else 3]:
+        f = floatify(e)
+        sib += [["sum", [e, f]], ["sum", [f, e]], ["call", ["v", "<func>g"], [e, f], []], ["prod", [f, ["sum", [e, ["c", 1]]]]]]
+    cases = [roundtrip(e) for e in sib]
+    n_sib = len(cases)
     for k, e in enumerate(es):
         cases.append(roundtrip(e))
         if k % 5 == 0:
@@ -134,7 +153,7 @@ def run(chk):
             chk.violation("C19:%s:%s" % (clause, "+".join(pred) or ("other:backticks" if c["backticks"] else "other:float-constants" if c.get("floats") else "other")),
                           "%s: e = %s prints %r, parse(%r) -> %s prints %r" % (
                               clause, exprs.show(c["e"]), c["s1"], c["text"], c["err"] or exprs.show(c["p"]), c["s2"]),
-                          {"e": c["e"], "backticks": c["backticks"], "floats": c.get("floats", False)})
+                          {"e": c.get("built", c["e"]), "backticks": c["backticks"], "floats": False})
     chk.coverage.update({
         "evaluations": len(cases),
         "distinct_nontrivial": sum(1 for c in cases if len(c["vars"]) >= 1 and c["e"][0] not in ("v", "c")),
